@@ -317,7 +317,7 @@ func main() {
 
 	{ // every non-negative int held by a basicnode.NewUint node: as root, list element, map value, and as
 		// the argument of AssignNode into other builders; read back like any int (AsInt within int64)
-		big := func(s string) *lib.Val { i, _ := new(big.Int).SetString(s, 10); return &lib.Val{Kind: lib.KInt, I: i} }
+		bigv := func(s string) *lib.Val { i, _ := new(big.Int).SetString(s, 10); return &lib.Val{Kind: lib.KInt, I: i} }
 		var pool []*lib.Val
 		for _, i := range lib.IntPool {
 			if i.Sign() >= 0 {
@@ -325,7 +325,7 @@ func main() {
 			}
 		}
 		for _, sv := range []string{"4294967294", "9007199254740990", "9223372036854775806", "9223372036854775809", "2", "127", "128", "32767", "32768"} {
-			pool = append(pool, big(sv))
+			pool = append(pool, bigv(sv))
 		}
 		urng := lib.NewRng(fl.Seed + 99)
 		for k := 0; k < 12; k++ {
